@@ -196,6 +196,38 @@ theorem base64_roundtrip (bs : List UInt8) : b64dec (b64enc bs) = some bs := b64
 theorem ds_roundtrip_refCodec (d : Doc) (h : WellFormed refCodec d = true) :
     saveLoad refCodec d = .ok (some d) := ds_roundtrip codecLaws_refCodec d h
 
+/-! ### the date component, for real -/
+
+/-- **date_text_roundtrip**: the text layer of `plist::Date::{to,from}_xml_format` as implemented in
+    `Model/DSCodec.lean` (`YYYY-MM-DDTHH:MM:SS[.f…]Z`, fixed-width decimal fields, sub-second digits only
+    when non-zero and without trailing zeros): every time stamp whose fields fit their widths is read back;
+    structural proof (digit lemmas + `dropTrailingZeros_pad`), no enumeration of dates -/
+theorem date_text_roundtrip (t : Stamp) (hy : t.year < 10000) (hm : t.month < 100) (hd : t.day < 100)
+    (hh : t.hour < 100) (hi : t.minute < 100) (hs : t.second < 100) (hn : t.nanos < 1000000000) :
+    parseStamp (showStamp t) = some t := parse_showStamp t hy hm hd hh hi hs hn
+
+/-- **date_codec_roundtrip_of_calendar**: the whole date codec (`rfc3339Show`/`rfc3339Read`: seconds and
+    nanoseconds since the Unix epoch ↔ RFC 3339 text, years 0000–9999) is a round trip, under ONE named
+    hypothesis, `CalendarInverse` (Hinnant's `days_from_civil ∘ civil_from_days = id` with fields in range on
+    that day range), which stays unproved: `omega` does not decide it, a proof by enumeration is not wanted -/
+theorem date_codec_roundtrip_of_calendar (H : CalendarInverse) (d : Date) (s : String)
+    (h : rfc3339Show d = some s) : rfc3339Read s = some d := rfc3339_roundtrip_of_calendar H d s h
+
+/-- with it, the codec hypothesis holds for real integers, real base64 and real dates; the float component
+    (`f32`/`f64` shortest-round-trip `Display`) is the only stand-in left -/
+theorem codec_laws_real_dates (H : CalendarInverse) : CodecLaws realDateCodec := codecLaws_realDateCodec H
+
+/-- spot checks of the calendar hypothesis at the ends of the range and at the plist and Unix epochs -/
+example : civilFromDays (-719528) = (0, 1, 1) ∧ daysFromCivil 0 1 1 = -719528 ∧
+    civilFromDays 2932896 = (9999, 12, 31) ∧ daysFromCivil 9999 12 31 = 2932896 ∧
+    civilFromDays 0 = (1970, 1, 1) ∧ civilFromDays 11323 = (2001, 1, 1) ∧
+    civilFromDays 11016 = (2000, 2, 29) ∧ daysFromCivil 2000 2 29 = 11016 ∧
+    civilFromDays (-25509) = (1900, 2, 28) ∧ civilFromDays (-25508) = (1900, 3, 1) := by decide
+
+/-- the real printer refuses exactly what the model calls unprintable (the `date-out-of-range-panics` finding) -/
+example : rfc3339Show ⟨253402300800, 0⟩ = none ∧ rfc3339Show ⟨-62167219201, 0⟩ = none ∧
+    dateLo' = dateLo ∧ dateHi' = dateHi := by decide
+
 /-- non-vacuity with a date and data in the lib -/
 example : WellFormed refCodec { sampleDoc with lib := .cons "d" (.date ⟨0, 5⟩) (.cons "b" (.data [255, 0, 7]) .nil) } = true := by
   decide
